@@ -258,6 +258,9 @@ pub fn keyprobe() -> String {
     }
     let mut all = piece_keys.clone();
     all.extend(ep_keys.iter());
+    if distinct(&all) != 784 && distinct(&piece_keys) == 768 && distinct(&ep_keys) == 16 {
+        problems.push(format!("C05|piece-and-en-passant-keys-collide|{} distinct of 784 piece and en-passant constants", distinct(&all)));
+    }
     let mut cases = 0u64;
     let mut bad = 0u64;
     for sq in 0..64u64 {
